@@ -31,22 +31,38 @@ def items(ctx, un=gen.BODY_UN, bi=gen.BODY_BIN, n=None, depth=None, salt='items'
 
 def constraint_programs(ctx, n=None):
     rng = ctx.rng('constraints')
-    n = n or (150 if ctx.quick else 1500)
+    n = n or (200 if ctx.quick else 2000)
     out = []
     for i in range(n):
         atoms = ATOMS
         pool = []
         rules = gen.context_program(rng, atoms)
-        for _ in range(rng.choice([1, 1, 2])):
-            f = gen.formula(rng, atoms, rng.randint(1, 3), pool=pool)
-            part = rng.choice(gen.PARTS)
-            k = rng.random()
-            if k < 0.4:
-                rules.append({'part': part, 'head': ('cons',), 'body': [(rng.choice('pnm'), ('tel', f))]})
-            elif k < 0.7:
-                rules.append({'part': part, 'head': ('norm', 'c', 0), 'body': [(rng.choice('nm'), ('tel', f))]})
+        fs = []
+        for _ in range(rng.choice([1, 1, 2, 2, 3])):
+            # later formulas are often RELATED to earlier ones: equal, a sub-formula, a weak/strong or dual sibling, the same
+            # conjunction written as several elements - so that formula objects and per-step caches are shared between atoms
+            if fs and rng.random() < 0.6:
+                f = gen.related(rng, rng.choice(fs))
             else:
-                rules.append({'part': part, 'head': ('cons',), 'body': [(rng.choice('pnm'), ('tel', f)), (rng.choice('pn'), ('patom', rng.choice(atoms), rng.choice([0, 1])))]})
+                f = gen.formula(rng, atoms, rng.randint(1, 3), pool=pool)
+            fs.append(f)
+            part = rng.choice(gen.PARTS)
+            tel = ('tel', f)
+            if f[0] == 'and' and rng.random() < 0.5:
+                tel = ('tels', [f[1], f[2]])
+            k = rng.random()
+            if k < 0.3:
+                rules.append({'part': part, 'head': ('cons',), 'body': [(rng.choice('pnm'), tel)]})
+            elif k < 0.5:
+                rules.append({'part': part, 'head': ('norm', 'c', 0), 'body': [(rng.choice('nm'), tel)]})
+            elif k < 0.75:
+                # a look-ahead constraint: its permanent copy is grounded only n steps later, so the theory atom of state t
+                # reaches the theory when state t may already have been translated for another atom
+                rules.append({'part': rng.choice(['initial', 'always', 'dynamic']), 'head': ('cons',),
+                              'body': [(rng.choice('pnm'), tel), (rng.choice('pn'), ('fatom', rng.choice(atoms), rng.randint(1, 2)))]})
+            else:
+                rules.append({'part': part, 'head': ('cons',), 'body': [(rng.choice('pnm'), tel), (rng.choice('pn'), ('patom', rng.choice(atoms), rng.choice([0, 1])))]})
+        rng.shuffle(rules)
         out.append(('constraint', rules))
     return out
 
